@@ -18,7 +18,7 @@ func init() {
 	register(
 		&Rule{ID: "PN-HASH", Doc: "no map keyed by (or == between) interface values whose repository implementors are not comparable, in code reachable from token entry points", Run: rulePNHash, Min: 1},
 		&Rule{ID: "PN-ASSERT", Doc: "every single-result type assertion reachable from token entry points is guarded by the matching Type() tag", Run: rulePNAssert, Min: 20},
-		&Rule{ID: "PN-SLICE", Doc: "every slice expression with a computed bound is proved within 0..len: the bound is non-negative by provenance (lengths, counters, guarded differences) and tested against the length", Run: rulePNSlice, Min: 4},
+		&Rule{ID: "PN-SLICE", Doc: "every slice expression with a computed bound is proved within 0..len: the bound is non-negative by provenance (lengths, counters, guarded differences) and tested against the length", Run: rulePNSlice, Min: 2},
 		&Rule{ID: "PN-OPTPTR", Doc: "optional pointer fields of the library's own structs (root key id, ...) are dereferenced only under a nil test", Run: rulePNOptPtr, Min: 2},
 		&Rule{ID: "PN-PBREQ", Doc: "pointer-typed protobuf fields are dereferenced only when the schema marks them required (or under a nil guard / through a getter)", Run: rulePNPbReq, Min: 10},
 		&Rule{ID: "PN-STDLIB", Doc: "length / provenance preconditions of ed25519 and encoding/binary calls hold on every path", Run: rulePNStdlib, Min: 8},
@@ -1037,6 +1037,17 @@ func (p *Prog) convertDefaultUnreachable(conv *ssa.Function, kind string) (bool,
 		produced[c.Value.ExactString()] = true
 	}
 	cases := switchCases(conv, conv.Params[0])
+	// clauses written as an if chain or as a lookup table keyed by the operator constants
+	for _, tb := range p.switchTables(conv) {
+		if tb.isType {
+			continue
+		}
+		for _, e := range tb.entries {
+			for _, c := range e.consts {
+				cases[c.Val().ExactString()] = true
+			}
+		}
+	}
 	var missing []string
 	for v := range produced {
 		if !cases[v] {
